@@ -472,6 +472,10 @@ func genPrioScenario(rng *rand.Rand, g prioGen) PrioScenario {
 			sc.Script = sc.Script[:cut:cut]
 		}
 		sc.Script = append(sc.Script, POp{K: kind, D: int64(rng.IntN(300)), N: rng.IntN(4)})
+		if rng.IntN(6) == 0 && kind != "gstop" {
+			// right after the constructor has returned, without letting anything settle
+			sc.Script = []POp{{K: kind, D: int64(rng.IntN(300)), N: rng.IntN(4), Mode: "at-once"}}
+		}
 	case "addrm":
 		// interleave control calls with the traffic: add a new priority, replace, remove, re-add
 		extra := []uint{11, 12, 13}
@@ -531,8 +535,8 @@ func genPrioScenario(rng *rand.Rand, g prioGen) PrioScenario {
 						ps = append(ps, p)
 					}
 				}
-				if len(ps) <= 1 {
-					return
+				if len(ps) == 0 || (len(ps) == 1 && rng.IntN(3) != 0) {
+					return // the last registered input is removed too, now and then: nothing is left to serve
 				}
 				sort.Slice(ps, func(i, j int) bool { return ps[i] < ps[j] })
 				p := ps[rng.IntN(len(ps))]
